@@ -187,3 +187,5 @@ Example c13_capacity0_witness :
   ([SK 2; SNone; SE; SK 0; SNone; SK 0], [[1;2]; []]%N,
    {| bytes_sent := 2; packets_sent := 2; bytes_dropped := 1; packets_dropped := 1 |})%N.
 Proof. vm_compute. reflexivity. Qed.
+
+(* Note after the second read-only review of these pins (selftest/audit/REVIEW-2-2026-10-02.md): c13_queuing_same_wire and c14_queuing_scenario are one statement pinned in two files; it holds because the flag 'queued' only selects the answer in Sock.sc_buf. *)
